@@ -205,9 +205,6 @@ theorem validLangInt_sound {n : Nat} (h : validLangInt n = true) : UL.validLangI
     simp only [List.mem_cons, List.not_mem_nil, or_false] at hb
     rcases hb with rfl | rfl | rfl | rfl | rfl | rfl | rfl | rfl <;> assumption
 
-theorem div_mod_4 (n : Nat) :
-    n = n % 256 + 256 * (n / 256 % 256 + 256 * (n / 65536 % 256 + 256 * (n / 16777216))) := by omega
-
 theorem validScriptInt_sound {n : Nat} (h : validScriptInt n = true) : UL.validScriptInt n = true := by
   simp only [validScriptInt, Bool.and_eq_true, isUpperF_iff, isLowerF_iff] at h
   obtain ⟨⟨⟨h0, h1⟩, h2⟩, h3⟩ := h
